@@ -166,7 +166,8 @@ PROFILES.update({
                          "numprocesses", "get", "globaloptions", "listsockets", "options", "stats"], "stubborn": 0.6, "partial": 0.5, "steps": 20},
     "events": {"cmds": ["incr", "decr", "set_np", "reload", "kill", "stop", "start", "restart", "status", "status", "signal", "signal"],
                "kcall_deaths": 0.5, "sigsoft": 0.6, "sigrec": 0.6, "fork": 0.15, "steps": 30},
-    "excl": {"cmds": ["start", "stop", "restart", "reload", "incr", "decr", "set_np", "set_opt", "set_opt", "kill", "rm", "add", "add"], "stubborn": 0.5, "partial": 0.7,
+    "excl": {"cmds": ["start", "stop", "restart", "restart", "reload", "incr", "decr", "set_np", "set_opt", "set_opt", "kill", "rm", "add", "add"], "stubborn": 0.5, "partial": 0.7,
+             "patterns": 0.4, "watchers": 3,
              "hooks": ["before_start", "after_start", "before_spawn"], "faults": 0.2, "singleton": True,
              "deaths": False, "steps": 20},
     "hooks": {"sigkill": 0.35, "sighook": 0.4, "hooks": HOOK_NAMES[:8], "cmds": ["start", "stop", "restart", "signal", "kill", "reload"],
